@@ -143,7 +143,7 @@ pub fn worker(prop: &str, tier: Tier, verif_seed: u64, start: u64, end: u64, str
         }
         let (rs, sc) = gen_scenario(c, verif_seed, tier, index);
         let out = run_scenario(&sc, rs, None, false, false);
-        let v = c.check(&sc, &out);
+        let v = check_run(c, &sc, &out);
         st.runs += 1;
         st.steps_total += out.report.steps;
         st.steps_max = st.steps_max.max(out.report.steps);
@@ -411,6 +411,31 @@ pub fn load_known() -> Vec<KnownFinding> {
     }
 }
 
+/// The campaign's oracle, or — when the run hit the step cap (no progress within the bound:
+/// a livelock; the end-of-run snapshots do not exist) — the campaign's liveness violation.
+pub fn check_run(c: &dyn Campaign, sc: &Scenario, out: &RunOut) -> Verdict {
+    if out.report.outcome == simrt::Outcome::StepCap {
+        let busy: Vec<String> = out
+            .report
+            .threads
+            .iter()
+            .filter(|t| !t.finished && t.state == "Runnable")
+            .map(|t| format!("{}@{}", t.name.clone().unwrap_or_else(|| "lib".into()), t.last_op))
+            .collect();
+        return Verdict {
+            violations: vec![Violation {
+                clause: format!("{}.no_progress", c.id()),
+                signature: "step cap reached: some thread keeps running without the run ever quiescing (livelock)".into(),
+                detail: format!("{}: {} scheduling steps without reaching quiescence; still running: {:?}", sc.note, out.report.steps, busy),
+            }],
+            inconclusive: None,
+            nontrivial: true,
+            tags: vec!["step_cap".into()],
+        };
+    }
+    c.check(sc, out)
+}
+
 fn same_violation(v: &[Violation], clause: &str, sig: &str) -> Option<Violation> {
     v.iter().find(|x| x.clause == clause && x.signature == sig).cloned()
 }
@@ -418,7 +443,7 @@ fn same_violation(v: &[Violation], clause: &str, sig: &str) -> Option<Violation>
 /// Run a scenario in-process and return the violation matching (clause, signature), if any.
 fn try_run(c: &dyn Campaign, sc: &Scenario, seed: u64, replay: Option<Vec<u32>>, tolerant: bool, clause: &str, sig: &str) -> Option<(RunOut, Violation)> {
     let out = run_scenario(sc, seed, replay, tolerant, false);
-    let v = c.check(sc, &out);
+    let v = check_run(c, sc, &out);
     same_violation(&v.violations, clause, sig).map(|x| (out, x))
 }
 
@@ -659,7 +684,7 @@ pub fn replay_file(path: &str, verbose: bool) -> i32 {
         };
     }
     let out = run_scenario(&rp.scenario, rp.run_seed, Some(rp.trace.clone()), false, verbose);
-    let v = c.check(&rp.scenario, &out);
+    let v = check_run(c, &rp.scenario, &out);
     if verbose {
         for l in &out.report.log {
             println!("{}", l);
